@@ -19,6 +19,9 @@ RNDS = ["floor", "ceil", "round", "trunc", "fract"]
 
 
 def slot(q, u, bs, ty):
+    if u.get("added"):
+        from . import added as AD
+        return AD.repath(slot(q, dict(u, added=False), bs, ty), q, u)
     rt = STYPES[ty]["rust"]
     qm, alias, un = q["module"], q["alias"], u["name"]
     arms = "\n".join(f'        "{r}" => x.{r}::<N>(),' for r in RNDS)
@@ -82,8 +85,11 @@ def run(ctx):
         ctx.violation({"kind": "runner", "obligation": "extraction/compilation of the model runner failed", "log": out[-2000:]}, no_input=True)
         return
     quick = ctx.tier == "quick"
-    h = Harness("c16", FEATURE_SETS["default"], prelude=B.prelude(BASES, TYPES))
+    from .added import PRELUDE as AD_PRELUDE
+    h = Harness("c16", FEATURE_SETS["default"], prelude=B.prelude(BASES, TYPES) + AD_PRELUDE)
     units = convlib.select_units(t, ctx.rng.fork("units"), 40 if quick else 400)
+    from . import added as AD
+    units = list(units) + AD.pairs(t)
     cases, meta = [], {}
     for ty in TYPES:
         for bs in BASES:
